@@ -305,13 +305,26 @@ theorem assocValues_eq (cur : List (String × Option Val)) (changes : List (Stri
   obtain ⟨n, v⟩ := kv
   rfl
 
+/-! ### which object a field holds -/
+
+theorem zip_map_filterMap {α β γ : Type} (l : List α) (f : α → β) (h : α × β → Option γ) :
+    (l.zip (l.map f)).filterMap h = l.filterMap (fun a => h (a, f a)) := by
+  induction l with
+  | nil => rfl
+  | cons a l ih => simp only [List.map_cons, List.zip_cons_cons, List.filterMap_cons, ih]
+
+theorem identOf_some (changed : Bool) (v : Val) :
+    identOf changed false (some v) = identDemand changed := by
+  cases changed <;> rfl
+
 theorem known_nil (c : Case) (hk : known c = []) :
-    C01.known c.base = [] ∧ cacheMisplaced c.base.run = false := by
+    C01.known c.base = [] ∧ (c.op = .evolve → cacheMisplaced c.base.run = false) := by
   unfold known at hk
   obtain ⟨h1, h2⟩ := List.append_eq_nil_iff.1 hk
   refine ⟨h1, ?_⟩
+  intro hop
   cases hm : cacheMisplaced c.base.run
   · rfl
-  · simp [hm] at h2
+  · simp [hm, hop] at h2
 
 end Attrs.C12
